@@ -342,7 +342,12 @@ fn try_gen_op(m: &Model, rng: &mut Rng, prof: &Profile, home: &[Lid]) -> Option<
             Some(Op::Parse { text, kind })
         }
         2 => {
-            let which = rng.below(5);
+            let which = rng.below(6);
+            if which == 5 {
+                // moving an (attached) element out into a fresh document is a move as well
+                let e = if fault { p.any(rng)? } else { p.kind(rng, K::Elem)? };
+                return Some(Op::NewDocWithElement { n: e });
+            }
             if fault {
                 let a = p.any(rng)?;
                 let b = p.any(rng)?;
